@@ -120,6 +120,14 @@ PROPS = {
         "note": "Trusted: as C01/C03. The compact and roaring legs are proved at scan/fold level (any sorted streams / any field results); their builder-level glue is covered by the executable models compared on every run. Known finding: zero configured roaring fields (F14).",
         "assumptions": ["all three accept every document and answer the query", "at least one configured field"],
     },
+    "C13": {
+        "level": "proof",
+        "design_ref": "§6 C13",
+        "technique": "Coq proof that every holder's cache codec round-trips every transaction its parser can produce and that a written record reproduces exactly the transactions it was written from (any threshold), with refutations for the pinned tree's codecs; three successive real builds sharing a seeded lossy cache provider compared with the plain build (outcomes, posting-list contents via hook, answers) inside Coq",
+        "text": "codec round trip per holder, record -> transactions reproduction for any caching threshold, and 'repeated-field conjunctions are never cached' are Coq theorems about Model/Cache.v (the pinned tree's slot collapse and lost interval are refuted by computation; repaired by three fix: commits). Real builds with a cache provider whose Get misses and Set drops by seeded coin, thresholds {0,2,512}, new or Reset builder, are compared with the plain build.",
+        "note": "Trusted: Coq kernel; protobuf / encoding/json as identity on the modelled message shapes (exercised on every run); that a miss or decode error falls back to parsing is read off the code (tryUseIndexingTxCache returns nil) and exercised by the 30%/100% miss runs.",
+        "assumptions": ["documents unchanged between builds sharing a cache"],
+    },
 }
 
 # properties not claimed (reason); empty when everything is claimed
